@@ -435,9 +435,15 @@ func c20model(c *Ctx) bool {
 		for k, v := range wktNameDefault {
 			wktNameOf[k] = v
 		}
+		first := ""
 		for k, v := range pr.names {
 			wktNameOf[k] = v
-			row = "proj(" + pr.wktName + "," + v + ")"
+			if first == "" || v < first {
+				first = v // the label must not depend on the order a map is walked in
+			}
+		}
+		if first != "" {
+			row = "proj(" + pr.wktName + "," + first + ")"
 		}
 		for _, unit := range []struct {
 			label, clause, p4 string
